@@ -17,7 +17,8 @@ BOHR = 0.52917721092
 FAM = {"sl": ("none", "none"), "nldf_j": ("j", "none"), "nldf_i": ("i", "none"), "nldf_ij": ("ij", "none"), "nldf_k": ("k", "none"),
        "sdmx": ("none", "SDMX"), "nldf_j+sdmx": ("j", "SDMX")}
 GEOM = {"R": [["H", (0.0, 0.0, 0.0)], ["F", (0.0, 0.1, 0.92)]], # the doublet must be NON-degenerate: OH (2-Pi) flips between its two pi occupations and never converges to 1e-11
-        "U": [["N", (0.0, 0.0, 0.0)], ["H", (0.0, 0.80, 0.60)], ["H", (0.07, -0.74, 0.66)]]}
+        # atom ORDER is part of the input: a light atom before and after the heavy one (per-atom work arrays are sized by the atom)
+        "U": [["H", (0.0, 0.80, 0.60)], ["N", (0.0, 0.0, 0.0)], ["H", (0.07, -0.74, 0.66)]]}
 
 
 def scf(row, shift_atom=None, shift=None, level=2, cheap=False):
